@@ -53,8 +53,17 @@ func isStatusMessage(s string) bool {
 	if s == "" {
 		return false
 	}
-	c := s[0]
-	return (c == '@') || (c == '#') || (c == '$')
+	if c := s[0]; (c != '@') && (c != '#') && (c != '$') {
+		return false
+	}
+	// The rest needs at least one ASCII letter or digit: the generated code
+	// derives an identifier from those (and from nothing else).
+	for i := 1; i < len(s); i++ {
+		if c := s[i]; (('a' <= c) && (c <= 'z')) || (('A' <= c) && (c <= 'Z')) || (('0' <= c) && (c <= '9')) {
+			return true
+		}
+	}
+	return false
 }
 
 func Parse(tm *t.Map, filename string, src []t.Token, opts *Options) (*a.File, error) {
